@@ -140,6 +140,15 @@ def run_history(t):
                                           ignore_transients=True, log_level='INFO')
                 m, decs = merge_notebooks(as_nb(o['base']), as_nb(o['local']), as_nb(o['remote']), args)
                 r = {'ok': [clean(m), [bool(d.conflict) for d in decs]]}
+            elif k == 'gmerge':
+                # generic three-way merge of JSON documents under a caller-supplied strategy table (API use);
+                # the documented strategy "fail" raises on a conflict by design
+                from nbdime.merging.generic import decide_merge
+                from nbdime.merging.decisions import apply_decisions
+                from nbdime.utils import Strategies
+                b0 = copy.deepcopy(o['base'])
+                decs = decide_merge(b0, copy.deepcopy(o['local']), copy.deepcopy(o['remote']), Strategies(o.get('strategies') or {}))
+                r = {'ok': [clean(apply_decisions(b0, decs)), [bool(d.conflict) for d in decs]]}
             elif k == 'targets':
                 N.set_notebook_diff_targets(*o['shown']); r = {'ok': None}
             elif k == 'ignores':
@@ -245,7 +254,7 @@ def run_task(t):
         from nbdime.merging.notebooks import decide_notebook_merge
         import argparse
         b, l, r = as_nb(t['base']), as_nb(t['local']), as_nb(t['remote'])
-        args = argparse.Namespace(merge_strategy=t.get('strategy', 'inline'), input_strategy=None, output_strategy=None,
+        args = argparse.Namespace(merge_strategy=t.get('strategy', 'inline'), input_strategy=t.get('input_strategy'), output_strategy=t.get('output_strategy'),
                                   ignore_transients=t.get('ignore_transients', True), log_level='INFO')
         decisions = decide_notebook_merge(b, l, r, args=args)
         return {'ok': clean(decisions)}
